@@ -4,8 +4,8 @@ set -u
 P=$(readlink -f "$1"); shift
 WT=/tmp/wt/mut
 if [ ! -d $WT ]; then git -C /repo worktree add --detach $WT HEAD >/dev/null 2>&1; fi
-git -C $WT checkout -q --detach $(git -C /repo rev-parse HEAD) 2>/dev/null
-git -C $WT checkout -- . ; git -C $WT clean -fdq
+git -C $WT reset -q --hard; git -C $WT clean -fdqx
+git -C $WT checkout -q --detach $(git -C /repo rev-parse HEAD) || { echo "cannot move scratch worktree to /repo HEAD"; exit 3; }
 if ! git -C $WT apply "$P"; then echo "PATCH DOES NOT APPLY: $P"; exit 3; fi
 /verif/bin/jpverif "${@:-rules}" --repo $WT
 rc=$?
